@@ -18,7 +18,8 @@
       evalcpp  → ok <int> | ok f:<n> | ub | unsupported | noparse           (cEvalX of parseX (emitted tokens))
   statements  (<block> = B <n> <stmt>{n};  <stmt> = A <var id> <hexname> <hextype> <node> | U <var id> <hexname> <op> <node> | R <node> | W <node> <block>
                                                       | I <k> (<node> <block>){k} <0|1 has else> <block>
-                                                      | F <var id> <hexname> <begin node> <stop node> <step node> <block>):
+                                                      | F <var id> <hexname> <begin node> <stop node> <step node> <block>
+                                                      | K (break) | C (continue)):
       stmtemit TAB <param ids> TAB <block>                       → ok <hex line>|<hex line>|…   (emitLines typeOf (annotate params block);
                                                                     typeOf e = the <hextype> given with the assignment of e)
       stmtpy   TAB <param id>=<int> … TAB <lits: env syntax> TAB <fuel> TAB <block>   → scope=<scopeOK> py=<ret n | end | out>   (pyExec)
@@ -257,6 +258,8 @@ partial def parseStmt : List String → Option (Stmt × List (Node × Str) × Li
     | some i, some nm, some t, some (e, r) => some (.assign i nm e, [(e, t)], r)
     | _, _, _, _ => none
   | "R" :: rest => (parseNode rest).map fun (e, r) => (.ret e, [], r)
+  | "K" :: rest => some (.brk, [], rest)
+  | "C" :: rest => some (.cont, [], rest)
   | "U" :: v :: name :: op :: rest => match v.toNat?, Str.unhex name, parseBOp op, parseNode rest with
     | some i, some nm, some o, some (e, r) => some (.aug i nm o e, [], r)
     | _, _, _, _ => none
@@ -315,6 +318,8 @@ def parseArgs (s : String) : Store :=
 def showOut {S : Type} (bad : String) : Except Err (Outcome S) → String
   | .ok (.returned v) => s!"ret {v}"
   | .ok (.normal _) => "end"
+  | .ok (.broke _) => "break"
+  | .ok (.continued _) => "continue"
   | .error _ => bad
 
 def stepStmt : List String → Option String
